@@ -1,14 +1,19 @@
 #!/bin/sh
 # Offline setup: nothing is built ahead of time (Python is imported from /repo's working tree,
-# TLC parses spec/ on every run). Only sanity-check that every specification parses.
+# TLC parses spec/ on every run). Sanity-check that the interpreter, acnportal and TLC are usable and
+# that every specification parses (a module that does not parse is reported here; the check that
+# needs it would fail as a machinery failure, exit 2, never as a violation).
 cd "$(dirname "$0")" || exit 1
 mkdir -p evidence replays
-st=0
+/venv/bin/python -c "import acnportal, numpy, pandas" || exit 1
+[ -f /opt/veriftools/tla/tla2tools.jar ] && java -version >/dev/null 2>&1 || { echo "TLC not runnable"; exit 1; }
+bad=0
+tmp=$(mktemp)
 for f in spec/MC_*.tla spec/*Trace.tla; do
   [ -f "$f" ] || continue
-  ( cd spec && java -cp /opt/veriftools/tla/tla2tools.jar:/opt/veriftools/tla/CommunityModules-deps.jar tla2sany.SANY "$(basename "$f")" >/tmp/verif-sany.$$ 2>&1 ) || { cat /tmp/verif-sany.$$; st=1; }
-  if grep -q "Could not parse\|\*\*\* Errors\|Fatal errors" /tmp/verif-sany.$$; then cat /tmp/verif-sany.$$; st=1; fi
+  ( cd spec && java -cp /opt/veriftools/tla/tla2tools.jar:/opt/veriftools/tla/CommunityModules-deps.jar tla2sany.SANY "$(basename "$f")" >"$tmp" 2>&1 )
+  if grep -q "Could not parse\|\*\*\* Errors\|Fatal errors\|Semantic errors" "$tmp"; then echo "SANY: $f does not parse"; grep -A6 "rrors" "$tmp" | head -12; bad=$((bad+1)); fi
 done
-rm -f /tmp/verif-sany.$$
-/venv/bin/python -c "import acnportal, jsonschema" 2>/dev/null || /venv/bin/python -c "import acnportal"
-exit $st
+rm -f "$tmp"
+echo "setup: specifications that do not parse: $bad"
+exit 0
